@@ -321,6 +321,27 @@ pub fn c12(tier: &str) -> i32 {
             timeout_s: 300,
         });
     }
+    // third search: the same seed workload, but every reopen passes a configuration that differs from the creation-time
+    // one in every dimension (the settings of an existing database are the persisted ones; what open() is given must
+    // not change any result)
+    {
+        let other = Cfg { page_size: 16384, cache: 48, pool: 2, min_keys: 4, siblings: 1 };
+        let other2 = Cfg { page_size: 4096, cache: 48, pool: 2, min_keys: 4, siblings: 1 };
+        for (oc, name) in [(other, "16384/48/2/4/1"), (other2, "4096/48/2/4/1")] {
+            let p3 = CfgParams { seq: SeqParams { reopen_cfg: Some(oc), ..p.seq.clone() }, cfgs: cfgs.clone(), oom_allowed_below: 24 };
+            let alpha3: Vec<Op> = alpha.iter().filter(|o| matches!(o, Op::Reopen | Op::Flush | Op::Auto(_))).cloned().collect();
+            let p3 = CfgParams { seq: SeqParams { alphabet: alpha3.clone(), ..p3.seq }, ..p3 };
+            searches.push(Search {
+                label: format!("the bulk workload with every reopen passing the configuration {name} instead of the creation-time one, under the same {} creation-time configurations", cfgs.len()),
+                engine: "cfg",
+                params: serde_json::to_value(&p3).unwrap(),
+                alphabet_shown: alpha3.iter().map(|o| o.show()).collect(),
+                max_depth: if quick { 2 } else { 3 },
+                budget: if quick { 20_000 } else { 200_000 },
+                timeout_s: 300,
+            });
+        }
+    }
     run_searches(
         "C12",
         tier,
